@@ -195,6 +195,25 @@ func runOnce(p Program, seed int64, prefix []int, mode sched.Mode, rng *rand.Ran
 	return o, ex
 }
 
+// confirm: a deadlock / hang verdict of the scheduler rests on "nothing moved for a while", which a badly overloaded
+// machine can fake. A real one is a property of the schedule: the same schedule is executed again (twice at most) and
+// the verdict stands only if it shows every time; otherwise the re-execution is what is recorded.
+var unconfirmed atomic.Int64
+
+func confirm(p Program, seed int64, rng *rand.Rand, o *Outcome, ex *sched.Exec) (*Outcome, *sched.Exec) {
+	if ex == nil || !(o.Deadlock || o.Hang) {
+		return o, ex
+	}
+	for k := 0; k < 2; k++ {
+		o2, ex2 := runOnce(p, seed, ex.Taken, sched.First, rng, -1, false)
+		if !(o2.Deadlock || o2.Hang) {
+			unconfirmed.Add(1)
+			return o2, ex2
+		}
+	}
+	return o, ex
+}
+
 var freeHangs atomic.Int64
 
 func freeWait() time.Duration {
@@ -293,6 +312,7 @@ func main() {
 			t0 := time.Now()
 			for n < *capN && (*budget == 0 || time.Since(t0) < *budget) {
 				o, ex := runOnce(p, *seed+int64(n), prefix, sched.First, rng, *maxPre, false)
+				o, ex = confirm(p, *seed+int64(n), rng, o, ex)
 				record(o, ex)
 				n++
 				prefix = sched.Next(ex.Taken, ex.Alts)
@@ -303,6 +323,7 @@ func main() {
 			}
 			for i := 0; i < *randN; i++ {
 				o, ex := runOnce(p, *seed+int64(n), nil, sched.Random, rng, -1, false)
+				o, ex = confirm(p, *seed+int64(n), rng, o, ex)
 				record(o, ex)
 				n++
 			}
@@ -316,7 +337,8 @@ func main() {
 	}
 	bw.Flush()
 	fo.Close()
-	b, _ := json.Marshal(map[string]any{"programs": progs, "schedules": total, "per_program": stats})
+	b, _ := json.Marshal(map[string]any{"programs": progs, "schedules": total, "per_program": stats,
+		"deadlock_verdicts_not_reproduced": unconfirmed.Load()})
 	fmt.Println(string(b))
 }
 
